@@ -1,43 +1,58 @@
 #!/usr/bin/env python3
 """T3: regenerate the integer leaf functions of the model from the Rust source.
 
-    python3 tools/gen_leaves.py [--repo /repo] [--out coq/theories/Gen/Leaves.v]
+    python3 tools/gen_leaves.py [--repo /repo] [--group G] [--out coq/theories/Gen/Leaves<G>.v]
 
-reads the current sources and writes one Gallina definition per function of TARGETS below
-(file rewritten only when its content changes).  Proofs/LeavesOk.v then proves each generated
-definition equal to the hand-written model of Model/Words.v / Model/RSQ.v, so the theorems about
-the hand model are re-checked against what the code says NOW.
+reads the current sources and writes one Gallina definition per function of TARGETS below (of the group G
+of GROUPS: utils, line, sb, rsn, rsw, qv; file rewritten only when its content changes).
+Proofs/Leaves<G>Ok.v then proves each generated definition equal to the hand-written model of
+Model/Words.v / Model/RSQ.v / Model/RSBin.v / Model/QVec.v, so the theorems about the hand model are
+re-checked against what the code says NOW.
 
 The translation is semantic and typed, and does not look at the hand model.  What is TRUSTED:
 
 Rust subset (anything else: exit 2 with a message naming the function and the construct)
-  items   free `fn`, methods of `impl [Trait for] Type` taking `&self` / `&mut self`, whose struct has
-          exactly one field of type `[uN; K]` (-> parameter `ws : list N`); generic integer parameter
-          `<T>` only by monomorphisation (TARGETS gives T); associated consts `Self::C` (scalar or array),
-          file-level const arrays named in STATIC_TABLES (K_SELECT_IN_BYTE -> Gen/SelTable.v: sel_table).
+  items   free `fn`, methods of `impl [Trait for] Type` taking `&self` / `&mut self` of a `struct Type { .. }`
+          with named fields.  Each field the function uses (itself or through a `self.m(..)` it calls) becomes a
+          parameter, in declaration order, before the function's own parameters: `[uN; K]`, `Box<[uN]>`,
+          `Vec<uN>` -> `list N`; `uN` / `bool` -> `N` / `bool`; named after the field (`ws` when the struct has
+          that single field).  Fields of any other type may exist but must not be used; unused fields are not
+          passed.  A `&mut self` method must use exactly one `[uN; K]` field and returns its new value.
+          Generic integer parameter `<T>` only by monomorphisation (TARGETS gives T); associated consts
+          `Self::C` (scalar or array); file-level `const NAME: uN = <const expr>;` (literals, other file-level
+          consts, + - * / % & | ^ << >>; evaluated here, overflow / division by zero = error); file-level const
+          arrays named in STATIC_TABLES (K_SELECT_IN_BYTE -> Gen/SelTable.v: sel_table).
   types   u8 u16 u32 u64 u128 usize(=64 bits) bool, tuples of these; no signed integers, no references.
   stmts   `let [mut] x [: T] = e;`  `let (a, b) = e;`  `x = e;`  `x op= e;`  `self.f[i] = e;`
           `self.f[i] op= e;`  `if c { ..; return e; }`  `return e;`  `debug_assert!(c[, "msg"]);`
-          `assert!(c[, "msg"]);`  tail expression.  Assignment only at the nesting level of the `let`.
+          `assert!(c[, "msg"]);`  tail expression.  Assignment only at the nesting level of the `let`, except
+          `if c { x op= e; .. }` without `else` whose block contains only lets, assertions and assignments to
+          variables of the enclosing block (conditional reassignment).
   exprs   integer literals (dec/hex/bin/oct, `_`, type suffix), true/false, variables, `( )`, tuples,
           unary `!`, `e as T`, binary `* / % + - << >> & ^ | == != < <= > >= && ||` with Rust precedence
           (`as` binds tighter than `*`; comparisons do not chain), `if c { a } else { b }`, `{ .. }`,
           `unsafe { .. }` (transparent), `x.count_ones()`, `x.leading_zeros()`, `x.wrapping_mul/add/sub(y)`,
           `uN::MAX`, `T::zero()`, `T::one()`, `std::mem::size_of::<T>()`, `self.f[e]`,
-          `*self.f.get_unchecked(e)`, `Self::C`, `Self::ARR[e]`, `TABLE[e]`, calls `f(..)` / `self.m(..)`
-          to functions translated earlier in TARGETS.
+          `*self.f.get_unchecked(e)`, `self.f` (scalar field), `Self::C`, `NAME` (file-level integer const),
+          `Self::ARR[e]`, `TABLE[e]`, calls `f(..)` / `self.m(..)` to functions translated earlier in TARGETS.
 
 Typing  parameters, `let x: T`, casts and literal suffixes are annotated; an unsuffixed literal takes the type
         of the other operand, else of its context (let annotation, return type, callee parameter, index =
         usize); `let` takes the type of its initialiser; count_ones/leading_zeros : u32.  Both operands of
         an arithmetic/bitwise/comparison operator must get the same type, an index must be usize; a literal
         whose type is not determined this way is an error (never defaulted), as is a literal out of range.
+        Two exceptions, both what rustc infers: `let [mut] x = <unsuffixed literal>;` takes the type of the
+        right side of the first later `x = e;` / `x op= e;` of the same block (else the type the block must
+        have when it ends in `x`), and every use of x is then checked against that type as usual; a shift
+        amount made only of unsuffixed literals and + - * (`x >> (128 - 44)`) is an i32 constant (integer
+        fallback), evaluated here (error outside 0 .. 2^31-1) and treated as a literal amount.
 
 Semantics at width w of the operand type (Base/Outcome.v, Base/ListX.v; `let!` = bind of the outcome monad)
   a + b -> oadd w a b      a * b -> omul w a b     a - b -> osub a b      (Fault Overflow when out of range)
   a << b, a >> b -> oshl w a b, oshr w a b  (amount >= w: Fault Overflow); with a literal amount n < w the
         same value without the test: (N.shiftl a n) mod 2^w, N.shiftr a n
-  a / b, a % b -> Fault Panic when b = 0 (literal non-zero divisor: plain N./ and mod)
+  a / b, a % b -> Fault Panic when b = 0 (divisor a non-zero constant expression, i.e. literals and integer
+        consts combined with + - * / %: plain N./ and mod by the expression as written)
   & | ^ -> N.land N.lor N.lxor (andb orb xorb on bool)    !a -> N.lxor a (2^w - 1) (negb on bool)
   e as uN -> e mod 2^N, omitted when the source type is not wider; bool as uN -> if b then 1 else 0
   == != < <= > >= -> N.eqb negb(N.eqb) N.ltb N.leb (flipped for > >=);  && || -> andb orb, operands fault-free
@@ -45,7 +60,10 @@ Semantics at width w of the operand type (Base/Outcome.v, Base/ListX.v; `let!` =
   x.wrapping_mul(y) -> (x * y) mod 2^w   wrapping_add -> (x + y) mod 2^w   wrapping_sub -> (x + 2^w - y) mod 2^w
   uN::MAX -> 2^N - 1    size_of::<uN>() -> N/8    consts: evaluated here with overflow = error
   self.f[e], Self::ARR[e], TABLE[e] -> idx l e (Fault Panic out of range)
-  *self.f.get_unchecked(e) -> uidx ws e (Fault UB out of range)
+  *self.f.get_unchecked(e) -> uidx ws e (Fault UB out of range)      self.f (scalar) -> the parameter f
+  NAME (file-level const) -> its value
+  if c { x op= e; } -> let! x := (if c then let! x := .. in Val x else Val x) in   (several variables: a tuple;
+        `let x := if c then v else x in` when the block cannot fault)
   self.f[e] op= v -> v, then e, then `idx ws e`, then ws := setN ws e (old op v)   (Rust evaluates the right
         operand of a compound assignment on primitives first)
   debug_assert!(c) -> odebug_assert c (Fault DebugAssert)   assert!(c) -> oassert c (Fault Panic)
@@ -74,9 +92,16 @@ TARGETS = [
     ("src/qvector/rs_qvector/rs_support_plain.rs", "SuperblockPlain", "get_rank", "g_sb_get_rank", {}),
     ("src/qvector/rs_qvector/rs_support_plain.rs", "SuperblockPlain", "get_superblock_counter",
      "g_sb_get_superblock_counter", {}),
+    ("src/bitvector/rs_narrow.rs", "RSNarrow", "block_rank", "g_rsn_block_rank", {}),
+    ("src/bitvector/rs_narrow.rs", "RSNarrow", "sub_block_ranks", "g_rsn_sub_block_ranks", {}),
+    ("src/bitvector/rs_narrow.rs", "RSNarrow", "sub_block_rank", "g_rsn_sub_block_rank", {}),
+    ("src/bitvector/rs_wide.rs", "RSWide", "superblock_rank", "g_rsw_superblock_rank", {}),
+    ("src/bitvector/rs_wide.rs", "RSWide", "sub_block_rank", "g_rsw_sub_block_rank", {}),
+    ("src/qvector/mod.rs", "QVector", "len", "g_qv_len", {}),
+    ("src/qvector/mod.rs", "QVector", "is_empty", "g_qv_is_empty", {}),
 ]
 STATIC_TABLES = {"K_SELECT_IN_BYTE": "sel_table"}
-WORDS = "ws"  # Coq name of the array field of self
+WORDS = "ws"  # Coq name of the array field of self when the struct has no other field
 RESERVED = set("""in let fun if then else match with end as return forall exists fix cofix Type Prop Set at using
     where for mod N Val Fault Panic UB Overflow DebugAssert bind idx uidx setN osub oadd omul oshl oshr oassert
     odebug_assert popcount clz sel_table negb andb orb xorb true false tt list outcome""".split()) | {WORDS}
@@ -490,8 +515,8 @@ def pow2(w):
 
 
 class Sig:
-    def __init__(self, coq, selfkind, params, ret):
-        self.coq, self.selfkind, self.params, self.ret = coq, selfkind, params, ret
+    def __init__(self, coq, selfkind, params, ret, fields=()):
+        self.coq, self.selfkind, self.params, self.ret, self.fields = coq, selfkind, params, ret, list(fields)
 
 
 class Cx:
@@ -501,7 +526,7 @@ class Cx:
         self.tr, self.env, self.depth, self.lines = tr, dict(env), depth, []
 
     def bind(self, name, ty):
-        coq = name + "_" if name in RESERVED or name in self.tr.sigs_coq else name
+        coq = name + "_" if name in RESERVED or name in self.tr.sigs_coq or name in self.tr.field_coq.values() else name
         self.env[name] = (coq, ty, self.depth)
         return coq
 
@@ -522,12 +547,36 @@ class FnTranslator:
         self.header = " ".join(unit.src[unit.toks[starts[0]].pos:unit.toks[body_open].pos].split())
         self.used = {t.text for t in unit.toks[starts[0]:p.i] if t.kind == "id"}
         self.ntmp = 0
-        self.field = None
+        self.fields, self.field_coq, self.used_fields = {}, {}, []
         if self.selfkind:
-            self.field = unit.self_array(owner, self.where)  # (field name, elem type, length)
+            fl = unit.self_fields(owner, self.where)
+            self.fields = dict(fl)  # field name -> kind
+            direct, via = set(), set()
+            self.scan_fields(self.body, direct, via)
+            for m in via:
+                if (unit.rel, owner, m) in sigs:
+                    direct |= set(sigs[(unit.rel, owner, m)].fields)
+            self.used_fields = [n for n, _ in fl if n in direct]
+            for n in self.used_fields:
+                if self.fields[n][0] == "opaque":
+                    self.fail("field `self.%s` of type `%s`" % (n, self.fields[n][1]))
+                coq = WORDS if len(fl) == 1 and self.fields[n][0] != "scalar" else n
+                while coq != WORDS and (coq in RESERVED or coq in self.sigs_coq):
+                    coq += "_"
+                self.field_coq[n] = coq
 
     def fail(self, what):
         raise Unsupported("%s: unsupported %s" % (self.where, what))
+
+    def scan_fields(self, e, direct, via):
+        """names f of every `self.f` in the syntax tree e (direct) and m of every `self.m(..)` (via)"""
+        if isinstance(e, (tuple, list)):
+            if len(e) == 3 and e[0] == "field" and e[1] == ("self",):
+                direct.add(e[2])
+            if len(e) == 4 and e[0] == "mcall" and e[1] == ("self",):
+                via.add(e[2])
+            for x in e:
+                self.scan_fields(x, direct, via)
 
     def fresh(self):
         while True:
@@ -537,8 +586,11 @@ class FnTranslator:
                 return n
 
     # ---- types (pure function of expression, expected type, env) ----
-    def is_self_field(self, e):
-        return e[0] == "field" and e[1] == ("self",) and self.field and e[2] == self.field[0]
+    def is_self_field(self, e, kinds=("array", "slice")):
+        """e is `self.f` for a field f of one of the kinds: (coq name of the parameter, element/scalar type)"""
+        if e[0] == "field" and e[1] == ("self",) and e[2] in self.field_coq and self.fields[e[2]][0] in kinds:
+            return self.field_coq[e[2]], self.fields[e[2]][1]
+        return None
 
     def const_array(self, e):
         """('path'|'var') naming a const array -> (coq list term, elem type) or None"""
@@ -567,7 +619,16 @@ class FnTranslator:
         if k == "var":
             if e[1] in env:
                 return env[e[1]][1]
-            self.fail("name `%s` (not a local variable)" % e[1])
+            if (None, e[1]) in self.unit.items["const"] and e[1] not in STATIC_TABLES:
+                t = self.unit.const(None, e[1], self.where)[0]
+                if t in INT:
+                    return t
+            self.fail("name `%s` (not a local variable or an integer const of the file)" % e[1])
+        if k == "field":
+            f = self.is_self_field(e, ("scalar",))
+            if f:
+                return f[1]
+            self.fail("field access `.%s` as a value (only scalar integer/bool fields of self)" % e[2])
         if k == "path":
             segs = e[1]
             if len(segs) == 2 and segs[0] in INT and segs[1] == "MAX":
@@ -581,8 +642,8 @@ class FnTranslator:
             if e[1] == "!":
                 return self.ty(e[2], exp, env)
             if e[2][0] == "mcall" and e[2][2] == "get_unchecked" and self.is_self_field(e[2][1]):
-                return self.field[1]
-            self.fail("dereference (only `*self.%s.get_unchecked(e)`)" % (self.field[0] if self.field else "f"))
+                return self.is_self_field(e[2][1])[1]
+            self.fail("dereference (only `*self.f.get_unchecked(e)` on an integer array/slice field f)")
         if k == "cast":
             return e[2]
         if k == "bin":
@@ -610,11 +671,11 @@ class FnTranslator:
             self.fail("call `%s`" % "::".join(segs))
         if k == "index":
             if self.is_self_field(e[1]):
-                return self.field[1]
+                return self.is_self_field(e[1])[1]
             ca = self.const_array(e[1])
             if ca:
                 return ca[1]
-            self.fail("indexing (only self.%s[..], Self::ARRAY[..], TABLE[..])" % (self.field[0] if self.field else "f"))
+            self.fail("indexing (only self.f[..] on an integer array/slice field, Self::ARRAY[..], TABLE[..])")
         if k == "tuple":
             exps = exp[1] if isinstance(exp, tuple) and exp[0] == "tuple" and len(exp[1]) == len(e[1]) else [None] * len(e[1])
             ts = [self.ty(x, t, env) for x, t in zip(e[1], exps)]
@@ -625,15 +686,49 @@ class FnTranslator:
             return self.ty(e[2], exp, env) or self.ty(e[3], exp, env)
         if k == "block":
             env = dict(env)
-            for s in e[1]:
+            for n, s in enumerate(e[1]):
                 if s[0] == "let":
-                    self.let_types(s, env, lambda n, t: env.__setitem__(n, (n, t, -1)))
+                    self.let_types(s, env, lambda n, t: env.__setitem__(n, (n, t, -1)), (e[1][n + 1:], e[2], exp))
             return self.ty(e[2], exp, env) if e[2] is not None else "unit"
         self.fail("expression `%s`" % k)
 
-    def let_types(self, s, env, bind):
+    def later_type(self, name, rest, env):
+        """type of `let name = <unsuffixed literal>;` from the statements after it in the same block: the first
+        `name = e;` / `name op= e;` (op not a shift) whose right side has a determined type, else the type the
+        block must have when its value is `name`.  Every use of `name` is then checked against that type."""
+        stmts, tail, exp = rest
+        env = dict(env)
+        env.pop(name, None)
+        for n, s in enumerate(stmts):
+            if s[0] == "let":
+                if name == s[1] or (isinstance(s[1], list) and name in s[1]):
+                    return None
+                self.let_types(s, env, lambda a, b: env.__setitem__(a, (a, b, -1)), (stmts[n + 1:], tail, exp))
+            elif s[0] == "assign" and s[1] == ("var", name) and s[2] not in ("<<", ">>"):
+                d, v = set(), set()
+                self.scan_vars(s[3], d)
+                if name not in d:
+                    t = self.ty(s[3], None, env)
+                    if t in INT:
+                        return t
+            elif s[0] == "return" and s[1] == ("var", name) and self.ret in INT:
+                return self.ret
+        if tail == ("var", name) and isinstance(exp, str) and exp in INT:
+            return exp
+        return None
+
+    def scan_vars(self, e, acc):
+        if isinstance(e, (tuple, list)):
+            if len(e) == 2 and e[0] == "var":
+                acc.add(e[1])
+            for x in e:
+                self.scan_vars(x, acc)
+
+    def let_types(self, s, env, bind, rest=None):
         _, pat, ann, init = s
         t = ann or self.ty(init, None, env)
+        if t is None and rest is not None and init[0] == "lit" and isinstance(pat, str):
+            t = self.later_type(pat, rest, env)
         if t is None:
             self.fail("`let %s` without a determined type (unsuffixed literal)" % (pat,))
         if isinstance(pat, list):
@@ -679,7 +774,9 @@ class FnTranslator:
         if k == "bool":
             return ("true" if e[1] else "false"), True
         if k == "var":
-            self.ty(e, exp, env)
+            t = self.ty(e, exp, env)
+            if e[1] not in env:
+                return fmt_const(self.unit.const(None, e[1], self.where)[1], t), True
             return env[e[1]][0], True
         if k == "path":
             t = self.ty(e, exp, env)
@@ -695,7 +792,7 @@ class FnTranslator:
             if len(e[2][3]) != 1:
                 self.fail("get_unchecked arity")
             self.need(e[2][3][0], "usize", env, "usize")
-            return app("uidx", WORDS, self.val(e[2][3][0], "usize", cx)), False
+            return app("uidx", self.is_self_field(e[2][1])[0], self.val(e[2][3][0], "usize", cx)), False
         if k == "cast":
             src = self.ty(e[1], None, env)
             if src is None:
@@ -737,7 +834,7 @@ class FnTranslator:
         if k == "index":
             self.ty(e, exp, env)
             self.need(e[2], "usize", env, "usize")
-            lst = WORDS if self.is_self_field(e[1]) else self.const_array(e[1])[0]
+            lst = self.is_self_field(e[1])[0] if self.is_self_field(e[1]) else self.const_array(e[1])[0]
             i = self.val(e[2], "usize", cx)
             return app("idx", lst, i), False
         if k == "tuple":
@@ -763,7 +860,8 @@ class FnTranslator:
             t = self.need(e, exp, env)
             return "(" + "\n ".join(self.block_lines(e, t, Cx(self, env, cx.depth + 1), False)) + ")", False
         if k == "field":
-            self.fail("field access `.%s` as a value" % e[2])
+            self.ty(e, exp, env)
+            return self.is_self_field(e, ("scalar",))[0], True
         self.fail("expression `%s`" % k)
 
     def emit_call(self, sig, args, cx, method):
@@ -775,7 +873,7 @@ class FnTranslator:
         for a, (_, pt) in zip(args, sig.params):
             self.need(a, pt, cx.env, pt)
             vs.append(self.val(a, pt, cx))
-        return app(sig.coq, *(([WORDS] if method else []) + vs)), False
+        return app(sig.coq, *([self.field_coq[f] for f in sig.fields] + vs)), False
 
     def emit_bin(self, e, exp, cx):
         _, op, A, B = e
@@ -809,8 +907,8 @@ class FnTranslator:
             w = INT[t]
             self.need(A, t, env, t)
             a = self.val(A, t, cx)
-            if B[0] == "lit":
-                n = B[1]
+            n = B[1] if B[0] == "lit" else self.i32_const(B)
+            if n is not None:
                 if n < w:
                     return (app("N.shiftr", a, str(n)) if op == ">>" else "%s mod %s" % (app("N.shiftl", a, str(n)), pow2(w))), True
                 b = str(n)
@@ -836,9 +934,41 @@ class FnTranslator:
         if op == "-":
             return app("osub", a, b), False
         pure = "%s %s %s" % (paren(a), "/" if op == "/" else "mod", paren(b))
-        if B[0] == "lit" and B[1] != 0:
+        if self.constval(B, t, env) not in (None, 0):
             return pure, True
         return "if %s =? 0 then Fault Panic else Val (%s)" % (paren(b), pure), False
+
+    def i32_const(self, e):
+        """value of an expression made of unsuffixed literals and + - * only (as a shift amount its type falls back
+        to i32 in Rust), None for anything else or when it leaves 0 .. 2^31-1"""
+        if e[0] == "lit" and e[2] is None:
+            return e[1] if e[1] < 2 ** 31 else None
+        if e[0] == "bin" and e[1] in ("+", "-", "*"):
+            a, b = self.i32_const(e[2]), self.i32_const(e[3])
+            if a is None or b is None:
+                return None
+            v = {"+": a + b, "-": a - b, "*": a * b}[e[1]]
+            return v if 0 <= v < 2 ** 31 else None
+        return None
+
+    def constval(self, e, t, env):
+        """value of a constant expression of type t (literals, integer consts, + - * / % of those), else None"""
+        k = e[0]
+        if k == "lit" and e[2] in (None, t):
+            return e[1] if e[1] < 2 ** INT[t] else None
+        if k == "var" and e[1] not in env and (None, e[1]) in self.unit.items["const"] and e[1] not in STATIC_TABLES:
+            c = self.unit.const(None, e[1], self.where)
+            return c[1] if c[0] == t else None
+        if k == "path" and len(e[1]) == 2 and e[1][0] == "Self" and (self.owner, e[1][1]) in self.unit.items["const"]:
+            c = self.unit.const(self.owner, e[1][1], self.where)
+            return c[1] if c[0] == t and isinstance(c[1], int) else None
+        if k == "bin" and e[1] in ("+", "-", "*", "/", "%"):
+            a, b = self.constval(e[2], t, env), self.constval(e[3], t, env)
+            if a is None or b is None or (e[1] in ("/", "%") and b == 0):
+                return None
+            v = {"+": a + b, "-": a - b, "*": a * b, "/": a // b if b else 0, "%": a % b if b else 0}[e[1]]
+            return v if 0 <= v < 2 ** INT[t] else None
+        return None
 
     # ---- statements ----
     def block_lines(self, blk, exp, cx, fn_level):
@@ -848,7 +978,7 @@ class FnTranslator:
         for n, s in enumerate(stmts):
             k = s[0]
             if k == "let":
-                t = self.let_types(s, cx.env, lambda a, b: None)
+                t = self.let_types(s, cx.env, lambda a, b: None, (stmts[n + 1:], tail, self.ret if fn_level else exp))
                 v, pure = self.emit(s[3], t, cx)
                 self.need(s[3], t, cx.env, t)
                 if isinstance(s[1], list):
@@ -870,8 +1000,12 @@ class FnTranslator:
                 return L + fin
             elif k == "expr" and s[1][0] == "if" and s[1][3] is None:
                 th = s[1][2]
+                if th[1] and th[2] is None and all(x[0] in ("let", "assign", "macro") for x in th[1]) \
+                        and any(x[0] == "assign" for x in th[1]):
+                    self.cond_assign(s[1], cx)
+                    continue
                 if not (th[1] and th[1][-1][0] == "return" and th[2] is None and fn_level):
-                    self.fail("`if` statement without `else` that does not end in `return`")
+                    self.fail("`if` statement without `else` that neither ends in `return` nor only assigns")
                 self.need(s[1][1], "bool", cx.env, "bool")
                 c = self.val(s[1][1], "bool", cx)
                 arm = self.block_lines(th, exp, Cx(self, cx.env, cx.depth + 1), True)
@@ -882,6 +1016,43 @@ class FnTranslator:
             self.fail("block without a value")
         fin = self.final(tail, cx) if fn_level else self.as_outcome(tail, exp, cx)
         return L + fin
+
+    def cond_assign(self, e, cx):
+        """`if c { x op= e; .. }` (no else; lets, assignments to variables of the enclosing block and assertions
+        only): the assigned variables are rebound to (if c then <their values after the block> else themselves)"""
+        _, c, th, _ = e
+        assigned, declared = [], set()
+        for st in th[1]:
+            if st[0] == "let":
+                declared |= set(st[1] if isinstance(st[1], list) else [st[1]])
+            elif st[0] == "assign":
+                if st[1][0] != "var":
+                    self.fail("assignment to something else than a local variable inside an `if` without `else`")
+                n = st[1][1]
+                if n not in cx.env:
+                    self.fail("assignment to unknown `%s`" % n)
+                if cx.env[n][2] != cx.depth:
+                    self.fail("assignment to `%s` from a nested block" % n)
+                if n not in assigned:
+                    assigned.append(n)
+        if declared & set(assigned):
+            self.fail("`let` of a variable that the same `if` block assigns")
+        self.need(c, "bool", cx.env, "bool")
+        cv = self.val(c, "bool", cx)
+        sub = Cx(self, cx.env, cx.depth + 1)
+        for n in assigned:
+            sub.env[n] = (cx.env[n][0], cx.env[n][1], sub.depth)
+        ts = [cx.env[n][1] for n in assigned]
+        tail = ("var", assigned[0]) if len(assigned) == 1 else ("tuple", [("var", n) for n in assigned])
+        t = ts[0] if len(assigned) == 1 else ("tuple", tuple(ts))
+        arm = self.block_lines(("block", th[1], tail), t, sub, False)
+        names = [cx.env[n][0] for n in assigned]
+        same = names[0] if len(names) == 1 else "(%s)" % ", ".join(names)
+        if len(arm) == 1 and arm[0].startswith("Val "):
+            cx.lines.append("let %s := if %s then %s else %s in" % (same if len(names) == 1 else "'" + same, cv, arm[0][4:], same))
+        else:
+            cx.lines.append("\n".join(["let! %s := (if %s then" % (same, cv)] + ["  " + l for a in arm for l in a.split("\n")]
+                                      + ["else Val %s) in" % same]))
 
     def as_outcome(self, e, exp, cx):
         v, pure = self.emit(e, exp, cx)
@@ -894,12 +1065,18 @@ class FnTranslator:
                 self.fail("value returned from a unit function")
             if self.selfkind != "mut":
                 self.fail("unit function without `&mut self`")
-            return ["Val " + WORDS]
+            return ["Val " + self.mut_field()]
         if e is None:
             self.fail("missing return value")
         if self.selfkind == "mut":
             self.fail("`&mut self` method returning a value")
         return self.as_outcome(e, self.ret, cx)
+
+    def mut_field(self):
+        """Coq name of the one array field a `&mut self` method works on (its new value is the result)"""
+        if len(self.used_fields) != 1 or self.fields[self.used_fields[0]][0] != "array":
+            self.fail("`&mut self` method that does not use exactly one array field of self")
+        return self.field_coq[self.used_fields[0]]
 
     def assign(self, s, cx):
         _, lhs, op, rhs = s
@@ -915,15 +1092,17 @@ class FnTranslator:
             cx.lines.append("let%s %s := %s in" % ("" if pure else "!", coq, v))
         elif lhs[0] == "index" and self.is_self_field(lhs[1]) and self.selfkind == "mut":
             if cx.depth != 0:
-                self.fail("assignment to self.%s[..] from a nested block" % self.field[0])
-            t = self.field[1]
+                self.fail("assignment to self.%s[..] from a nested block" % lhs[1][2])
+            ws, t = self.is_self_field(lhs[1])
+            if ws != self.mut_field():
+                self.fail("assignment target")
             self.need(rhs, t, cx.env, t), self.need(lhs[2], "usize", cx.env, "usize")
             v = self.val(rhs, t, cx)
             i = self.val(lhs[2], "usize", cx)
             old = self.fresh()
-            cx.lines.append("let! %s := %s in" % (old, app("idx", WORDS, i)))
+            cx.lines.append("let! %s := %s in" % (old, app("idx", ws, i)))
             new = self.val(("bin", op, ("term", old, t), ("term", v, t)), t, cx) if op else v
-            cx.lines.append("let %s := %s in" % (WORDS, app("setN", WORDS, i, new)))
+            cx.lines.append("let %s := %s in" % (ws, app("setN", ws, i, new)))
         else:
             self.fail("assignment target")
 
@@ -932,11 +1111,14 @@ class FnTranslator:
         names = [cx.bind(p, t) for p, t in self.params]
         lines = self.block_lines(self.body, self.ret, cx, True)
         ret = coq_type(self.ret) if self.ret != "unit" else "list N"
-        binders = (["(%s : list N)" % WORDS] if self.selfkind else []) + ["(%s : %s)" % (n, coq_type(t)) for n, t in zip(names, [t for _, t in self.params])]
+        if self.selfkind == "mut":
+            self.mut_field()
+        binders = ["(%s : %s)" % (self.field_coq[f], coq_type(self.fields[f][1]) if self.fields[f][0] == "scalar" else "list N")
+                   for f in self.used_fields] + ["(%s : %s)" % (n, coq_type(t)) for n, t in zip(names, [t for _, t in self.params])]
         out = ["(* %s: %s%s *)" % (self.unit.rel, self.header, "   with " + ", ".join("%s = %s" % kv for kv in self.subst.items()) if self.subst else ""),
                "Definition %s %s : outcome %s :=" % (self.coq, " ".join(binders), paren(ret))]
         text = "\n".join("  " + l for ln in lines for l in ln.split("\n"))
-        return "\n".join(out) + "\n" + text + ".\n", Sig(self.coq, self.selfkind, self.params, self.ret)
+        return "\n".join(out) + "\n" + text + ".\n", Sig(self.coq, self.selfkind, self.params, self.ret, self.used_fields)
 
 
 def coq_type(t):
@@ -970,21 +1152,48 @@ class Unit:
         self.items = scan_items(self.toks)
         self._consts = {}
 
-    def self_array(self, owner, where):
+    def self_fields(self, owner, where):
+        """fields of struct `owner` in declaration order: [(name, kind)] with kind ('array', uN, K) for `[uN; K]`,
+        ('slice', uN) for `Box<[uN]>` / `Vec<uN>`, ('scalar', uN|bool), or ('opaque', text) for any other type
+        (an opaque field may exist, but not be used by a translated function)"""
         j = self.items["struct"].get(owner)
         if j is None:
             raise Unsupported("%s: struct %s not found" % (where, owner))
-        p = Parser(self.toks, j + 1, where + " (struct %s)" % owner, {})
-        fields = []
-        while not p.accept("}"):
-            while p.at("#"):
-                p.i = match_close(self.toks, p.i + 1) + 1
-            p.accept("pub")
-            fields.append((p.ident(), (p.expect(":"), p.type())[1]))
-            p.accept(",")
-        if len(fields) != 1 or not (isinstance(fields[0][1], tuple) and fields[0][1][0] == "array" and fields[0][1][1] in INT):
-            raise Unsupported("%s: struct %s must have exactly one integer-array field" % (where, owner))
-        return fields[0][0], fields[0][1][1], fields[0][1][2]
+        toks, i, end, fields = self.toks, j + 1, match_close(self.toks, j), []
+
+        def op(k, t):
+            return toks[k].kind == "op" and toks[k].text == t
+        while i < end:
+            if op(i, "#"):
+                i = match_close(toks, i + 1) + 1
+                continue
+            if toks[i].kind == "id" and toks[i].text == "pub":
+                i = match_close(toks, i + 1) + 1 if op(i + 1, "(") else i + 1
+            if toks[i].kind != "id" or not op(i + 1, ":"):
+                raise Unsupported("%s: struct %s: unsupported field syntax at line %d" % (where, owner, toks[i].line))
+            name, i, ty, depth = toks[i].text, i + 2, [], 0
+            while i < end and not (depth == 0 and op(i, ",")):
+                if op(i, "(") or op(i, "["):
+                    k = match_close(toks, i)
+                    ty += [x.text for x in toks[i:k + 1]]
+                    i = k + 1
+                    continue
+                depth += {"<": 1, ">": -1, ">>": -2}.get(toks[i].text, 0) if toks[i].kind == "op" else 0
+                ty.append(toks[i].text)
+                i += 1
+            i += 1
+            if len(ty) == 1 and (ty[0] in INT or ty[0] == "bool"):
+                kind = ("scalar", ty[0])
+            elif len(ty) == 5 and ty[0] == "[" and ty[1] in INT and ty[2] == ";" and re.fullmatch(r"[0-9]+", ty[3]) and ty[4] == "]":
+                kind = ("array", ty[1], int(ty[3]))
+            elif len(ty) == 6 and ty[:3] == ["Box", "<", "["] and ty[3] in INT and ty[4:] == ["]", ">"]:
+                kind = ("slice", ty[3])
+            elif len(ty) == 4 and ty[:2] == ["Vec", "<"] and ty[2] in INT and ty[3] == ">":
+                kind = ("slice", ty[2])
+            else:
+                kind = ("opaque", " ".join(ty))
+            fields.append((name, kind))
+        return fields
 
     def const(self, owner, name, where):
         """(type, value) of a const; value an int, a list of ints, or None for a table left to STATIC_TABLES"""
@@ -1019,9 +1228,15 @@ class Unit:
             return 2 ** INT[t] - 1
         if k == "path" and len(e[1]) == 2 and e[1][0] == "Self" and self.const(owner, e[1][1], p.where)[0] == t:
             return self.const(owner, e[1][1], p.where)[1]
-        if k == "bin" and e[1] in ("+", "-", "*", "&", "|", "^"):
+        if k == "var" and (None, e[1]) in self.items["const"] and e[1] not in STATIC_TABLES \
+                and self.const(None, e[1], p.where)[0] == t:
+            return self.const(None, e[1], p.where)[1]
+        if k == "bin" and e[1] in ("+", "-", "*", "&", "|", "^", "/", "%"):
             a, b = self.ceval(e[2], t, owner, p), self.ceval(e[3], t, owner, p)
-            return chk({"+": a + b, "-": a - b, "*": a * b, "&": a & b, "|": a | b, "^": a ^ b}[e[1]])
+            if e[1] in ("/", "%") and b == 0:
+                p.fail("constant expression (division by zero)")
+            return chk({"+": a + b, "-": a - b, "*": a * b, "&": a & b, "|": a | b, "^": a ^ b,
+                        "/": a // b if b else 0, "%": a % b if b else 0}[e[1]])
         if k == "bin" and e[1] in ("<<", ">>") and e[3][0] == "lit" and e[3][1] < INT.get(t, 0):
             a = self.ceval(e[2], t, owner, p)
             return chk(a >> e[3][1]) if e[1] == ">>" else chk((a << e[3][1]) % 2 ** INT[t])
@@ -1039,15 +1254,20 @@ Definition clz (w x : N) : N := w - N.size x.
 """
 
 
-GROUPS = {"utils": "src/utils/mod.rs", "line": "src/qvector/mod.rs",
-          "sb": "src/qvector/rs_qvector/rs_support_plain.rs"}
+# group -> (source file, impl self types or None for all): one generated file per group
+GROUPS = {"utils": ("src/utils/mod.rs", None), "line": ("src/qvector/mod.rs", ("DataLine",)),
+          "sb": ("src/qvector/rs_qvector/rs_support_plain.rs", None),
+          "rsn": ("src/bitvector/rs_narrow.rs", None), "rsw": ("src/bitvector/rs_wide.rs", None),
+          "qv": ("src/qvector/mod.rs", ("QVector",))}
 
 
-def generate(repo, group=None):
+def generate(repo, group=None, count=None):
     units, sigs, out = {}, {}, [PREAMBLE]
+    count = [0] if count is None else count
     for rel, owner, fname, coq, subst in TARGETS:
-        if group is not None and rel != GROUPS[group]:
+        if group is not None and (rel != GROUPS[group][0] or (GROUPS[group][1] is not None and owner not in GROUPS[group][1])):
             continue
+        count[0] += 1
         if rel not in units:
             units[rel] = Unit(repo, rel)
         try:
@@ -1072,7 +1292,8 @@ def main():
     a = ap.parse_args()
     t0 = time.time()
     try:
-        text = generate(a.repo, a.group)
+        count = [0]
+        text = generate(a.repo, a.group, count)
     except Unsupported as e:
         sys.stderr.write("gen_leaves: BROKEN OBLIGATION: %s\n" % e)
         return 2
@@ -1080,7 +1301,7 @@ def main():
     if old != text:
         with open(a.out, "w") as f:
             f.write(text)
-    print("gen_leaves: %d functions -> %s (%s, %.2fs)" % (len(TARGETS), os.path.normpath(a.out),
+    print("gen_leaves: %d functions -> %s (%s, %.2fs)" % (count[0], os.path.normpath(a.out),
                                                           "unchanged" if old == text else "written", time.time() - t0))
     return 0
 
